@@ -16,9 +16,9 @@ from harness import core
 KINDS = {"P": "Array2D", "A": "Array2D", "B": "Array2D", "C": "Array2D", "D": "Array2D", "E": "Array2D", "M": "Mask2D", "N": "Mask2D",
          "K": "Kernel2D", "J": "Kernel2D", "L": "Array1D", "Q": "Mask1D"}
 TRIPLES = [("A", "J", "E"), ("E", "J", "E")]  # (data, psf, noise map): same shape, positive noise, psf summing to one exactly
-ANISO = {"B", "N"}
-SCALES = {"A": (0.5, 0.5), "B": (1.0, 2.0), "C": (0.1, 0.1), "D": (3.0, 3.0), "M": (0.25, 0.25), "N": (0.5, 1.5),
-          "K": (1.0, 1.0), "L": (0.2,), "Q": (2.0,), "E": (0.5, 0.5), "J": (0.5, 0.5), "P": (0.5, 0.5)}
+ANISO = {"B", "N", "D", "K"}  # B: x scale larger; N, D, K: y scale larger
+SCALES = {"A": (0.5, 0.5), "B": (1.0, 2.0), "C": (0.1, 0.1), "D": (2.0, 1.0), "M": (0.25, 0.25), "N": (1.5, 0.5),
+          "K": (0.75, 0.25), "L": (0.2,), "Q": (2.0,), "E": (0.5, 0.5), "J": (0.5, 0.5), "P": (0.5, 0.5)}
 PATHS = {"nested": ("sub", "new", "a.fits"), "existing": ("ex", "b.fits"), "bare": ("c.fits",),
          "nested2": ("sub", "other", "deep", "d.fits"), "existing2": ("ex", "e.fits"), "bare2": ("f.fits",),
          "img_data": ("img", "data.fits"), "img_psf": ("img", "psf", "psf.fits"), "img_noise": ("noise_map.fits",)}
